@@ -112,3 +112,8 @@ Theorem C06_element_access : forall docs bs ix avoid keys v els,
           (view_docs docs keys) els.
 Proof. exact element_access_ok. Qed.
 Print Assumptions C06_element_access.
+
+(* Assumptions of the remaining named statements of this file (the gate requires one per statement). *)
+Print Assumptions C06_selection_succeeds.
+Print Assumptions C06_reindexes_parent_answers.
+Print Assumptions C06_ranged_term_frequency_commutes.
